@@ -146,6 +146,6 @@ def main():
 
 
 HOOK_COMMITS = ["f732ec2d"]
-FIX_COMMITS = ["534640d9", "56cd6cbd", "16e4b988", "75d6d0dd", "8109e7ed", "63c515ea", "d473780a", "357c1413", "db73fc0e", "b50adf6f", "f225fd17", "090b168e", "7bc9a0c2", "eb497cc1", "837129af", "267d508a", "a9df45fa", "a31e1487", "30af7bac", "5e92f415", "21159cb4", "246de6e1", "9e3ed1c9", "1e9d5195", "5ace7f41", "d1d8a479", "29c72567", "5c8eb895", "d3925329", "8bb4d5fe", "461b9806", "911ee6eb", "c17b0160", "cd4d27a1", "f2f9a25a", "37a4ccbc", "2a75b0a1", "e8f37c00", "ae36e46f"]
+FIX_COMMITS = ["534640d9", "56cd6cbd", "16e4b988", "75d6d0dd", "8109e7ed", "63c515ea", "d473780a", "357c1413", "db73fc0e", "b50adf6f", "f225fd17", "090b168e", "7bc9a0c2", "eb497cc1", "837129af", "267d508a", "a9df45fa", "a31e1487", "30af7bac", "5e92f415", "21159cb4", "246de6e1", "9e3ed1c9", "1e9d5195", "5ace7f41", "d1d8a479", "29c72567", "5c8eb895", "d3925329", "8bb4d5fe", "461b9806", "911ee6eb", "c17b0160", "cd4d27a1", "f2f9a25a", "37a4ccbc", "2a75b0a1", "e8f37c00", "ae36e46f", "2aa352f2", "5cbc8866"]
 if __name__ == "__main__":
     main()
